@@ -155,6 +155,8 @@ func (g *Gen) WrkRegisterMsg(owner lab.Acct) *wrkchaintypes.MsgRegisterWrkChain 
 		mon = []string{mon + " ", " " + mon, mon + "\n", "\t" + mon}[g.E.R.Intn(4)]
 	case 3:
 		name = []string{name + " ", " " + name, name + "\n", " "}[g.E.R.Intn(4)]
+	case 4: // monikers are free text, not unique, and case matters
+		mon = []string{"acme", "Acme", "ACME", "acme"}[g.E.R.Intn(4)]
 	}
 	return &wrkchaintypes.MsgRegisterWrkChain{Moniker: mon, Name: name, GenesisHash: g.hash(g.hashLen()), BaseType: []string{"geth", "cosmos", ""}[g.E.R.Intn(3)], Owner: g.spell(owner, 10)}
 }
@@ -172,6 +174,8 @@ func (g *Gen) BeaconRegisterMsg(owner lab.Acct) *beacontypes.MsgRegisterBeacon {
 		mon = []string{mon + " ", " " + mon, mon + "\n", "\t" + mon}[g.E.R.Intn(4)]
 	case 3:
 		name = []string{name + " ", " " + name, name + "\n", " "}[g.E.R.Intn(4)]
+	case 4:
+		mon = []string{"acme", "Acme", "ACME", "acme"}[g.E.R.Intn(4)]
 	}
 	return &beacontypes.MsgRegisterBeacon{Moniker: mon, Name: name, Owner: g.spell(owner, 10)}
 }
